@@ -47,6 +47,7 @@ def confirm(wt):
 
 def run(seeded, props):
     meta = json.load(open(os.path.join(seeded, 'meta.json')))
+    seeded = os.path.abspath(seeded)
     patch = os.path.join(seeded, 'patch.diff')
     props = props or [meta['property']]
     rc, o = sh('git status --short', cwd='/repo')
